@@ -23,6 +23,7 @@ EXPLANATION = (
 EXPLANATION += ' R01.17 (=R02.22=R06.14): a line attribute and a column attribute used together belong to the same end of the same node; a column is converted on its own line.'
 EXPLANATION += " R01.14: identifier characters are the interpreter's (worder.is_identifier_char; no home-made isalnum test; no \\b next to the name).  R01.15 (=R15.17): a `:=` target in a comprehension binds in the containing scope.  R01.16 (=R02.21): names in decorators, defaults, annotations and bases are evaluated in the parent scope."
 EXPLANATION += ' R01.13: a `col_offset`/`end_col_offset` of an AST node (UTF-8 bytes) reaches a character offset only through codeanalyze.column_to_offset; it is otherwise only compared, or is the start column of a node tested to be a statement.'
+EXPLANATION += " R01.19: in the anchored modules and the shared text utilities no source text is cut with str.splitlines() (it breaks at form feed, \x1c-\x1e, \x85, U+2028/9; rope's and the ast's line numbers count \n only)."
 ASSUMPTIONS = ["scope classes are the subclasses of rope.base.pyscopes.Scope found in the working tree"]
 
 SCOPE = "rope.base.pyscopes.Scope"
@@ -125,10 +126,19 @@ def check(ctx, res) -> None:
     from .c02 import header_expression_scope_rule
 
     header_expression_scope_rule(ctx, res, "R01.16")
+    from .c02 import comprehension_iterable_scope_rule
+    comprehension_iterable_scope_rule(ctx, res, "R01.18")
+    from .c02 import decorators_above_the_statement_rule
+    decorators_above_the_statement_rule(ctx, res, "R01.20")
+    from .c09 import module_without_file_rule
+    module_without_file_rule(ctx, res, "R01.21")
     from .common import position_pair_rule
 
     position_pair_rule(ctx, res, "R01.17", ("rope.refactor.occurrences", "rope.refactor.functionutils", "rope.base.evaluate", "rope.refactor.patchedast", "rope.base.codeanalyze"))
     identifier_char_rule(ctx, res, "R01.14", ("rope.refactor.occurrences", "rope.refactor.rename", "rope.base.worder"), occurrences=True)
+    from .common import line_model_rule as _lm
+
+    _lm(ctx, res, "R01.19", ('rope.refactor.rename', 'rope.refactor.occurrences', 'rope.base.evaluate', 'rope.base.pyscopes', 'rope.base.pyobjectsdef', 'rope.base.worder', 'rope.base.codeanalyze'))
 
 
 def call_keyword_rule(ctx, res, rule: str) -> None:
